@@ -255,6 +255,10 @@ def hist_structures(tier):
 
 
 def draw(rnd, n, kind):
+    if kind == "int_zeros":
+        return [0] * n                    # python ints: the first vector an object sees may well be integer-typed
+    if kind == "int_ones":
+        return [1] * n
     if kind == "zeros":
         return [0.0] * n
     if kind == "some_zero":
@@ -288,7 +292,8 @@ def o1(h, st):
     cls = st["cls"]
     HISTS = [("random", "random"), ("flip", "large"), ("repeat",), ("zeros", "random"), ("random", "zeros", "random"), ("some_zero", "random"),
              ("large", "flip", "random", "repeat"), ("random", "some_zero"), ("random", "zeros"),
-             ("zero_last", "zero_last"), ("zero_first", "zero_first"), ("random", "zero_last", "zero_last", "random"), ("some_zero", "some_zero"), ("zero_first", "zero_last")]
+             ("zero_last", "zero_last"), ("zero_first", "zero_first"), ("random", "zero_last", "zero_last", "random"), ("some_zero", "some_zero"), ("zero_first", "zero_last"),
+             ("int_zeros", "random"), ("int_ones", "random", "flip"), ("random", "int_ones", "random")]
     for hist in HISTS:
         a = make_ansatz(h, st)
         if cls != "ADAPTAnsatz":
